@@ -52,10 +52,26 @@ def main(tier):
         raw = open(sample, "rb").read()
         if raw.startswith(refkeys.PRIV_PREFIX):
             roots["sample"] = (sample, raw[len(refkeys.PRIV_PREFIX):])
+    # parents in the OTHER accepted form: OpenSSL Ed25519 private keys, whose X25519 secret is SHA-512(seed)[0..32]
+    # (hash-and-clamp conversion): the documented derivation starts from that secret, clamped
+    import hashlib as _h
+    ED_PREFIX = bytes.fromhex("302e020100300506032b657004220420")
+    ed_roots = []
+    eds = "/repo/samples/test_ed25519.der"
+    if os.path.exists(eds) and open(eds, "rb").read().startswith(ED_PREFIX):
+        roots["ed-sample"] = (eds, _h.sha512(open(eds, "rb").read()[len(ED_PREFIX):]).digest()[:32])
+        ed_roots.append("ed-sample")
+    for i in range(2 if tier == "quick" else 12):
+        edseed = _h.sha256(f"ed parent {seed()} {i}".encode()).digest()
+        pth = os.path.join(wd, f"edroot{i}.der")
+        open(pth, "wb").write(ED_PREFIX + edseed)
+        roots[f"ed{i}"] = (pth, _h.sha512(edseed).digest()[:32])
+        ed_roots.append(f"ed{i}")
+    ed_behs = [dict(seed=r, paths=ps, split=sp) for r in ed_roots for ps, sp in ((["a"], 0), (["a", "App X"], 1))]
     n = 0
     known_hits = 0
     samples = []
-    for bi, b in enumerate(behs + [dict(seed="sample", paths=["a", "App X"], split=1), dict(seed="sample", paths=["uni"], split=0)]):
+    for bi, b in enumerate(behs + [dict(seed="sample", paths=["a", "App X"], split=1), dict(seed="sample", paths=["uni"], split=0)] + ed_behs):
         if b["seed"] not in roots:
             continue
         rootfile, rootpriv = roots[b["seed"]]
